@@ -90,6 +90,20 @@ type regSet struct {
 	ghost   []string
 }
 
+// decorated returns reg itself or a view of it that decorates with pass-through interceptors of one or both
+// kinds (mode 0..3): names must resolve the same whichever way the service was registered.
+func decorated(reg grpchan.ServiceRegistry, mode int) grpchan.ServiceRegistry {
+	switch mode {
+	case 1:
+		return grpchan.WithInterceptor(reg, passThroughUnary, nil)
+	case 2:
+		return grpchan.WithInterceptor(reg, nil, passThroughStream)
+	case 3:
+		return grpchan.WithInterceptor(reg, passThroughUnary, passThroughStream)
+	}
+	return reg
+}
+
 // registerRefused attempts the registrations that must be refused; the panics are the registrar's way of
 // saying no (C15) and are swallowed here.
 func (rs *regSet) registerRefused(reg interface {
@@ -303,14 +317,14 @@ func genBasePath(r *rand.Rand) string {
 
 func checkC12(e *core.Env) {
 	curEnv = e
-	e.SetRule("random registered sets (1..4 services with near-miss names, 1..3 unary and 0..2 stream methods) x generated method-name strings (registered, prefixes/suffixes/case variants, missing slash, empty, extra segments, swapped service/method, random) x {Invoke, NewStream}, plus the method names of registrations that were refused (ill-typed handler, second registration of a name); in-process, httpgrpc.Server and HandleServices with random absolute base paths configured identically on both sides; oracle: per-method invocation counters, recover(), status code; distinct = (carrier, name class, call kind)")
+	e.SetRule("random registered sets (1..4 services with near-miss names, 1..3 unary and 0..2 stream methods) x generated method-name strings (registered, prefixes/suffixes/case variants, missing slash, empty, extra segments, swapped service/method, random) x {Invoke, NewStream} x registration {direct, through WithInterceptor views with a unary-only, stream-only or full pass-through pair}, plus the method names of registrations that were refused (ill-typed handler, second registration of a name); in-process, httpgrpc.Server and HandleServices with random absolute base paths configured identically on both sides; oracle: per-method invocation counters, recover(), status code; distinct = (carrier, name class, call kind)")
 	e.Assume("over HTTP, names with empty or dot segments are excluded (URL path normalisation) and base paths avoid blank, %, { and } (net/http mux pattern language)")
 	// in-process
 	e.Cases("inproc", e.N(400, 10000), func(i int, r *rand.Rand) {
 		rs := genRegSet(r)
 		ch := &inprocgrpc.Channel{}
 		for _, d := range rs.descs {
-			ch.RegisterService(d, &svcObj{d.ServiceName})
+			decorated(ch, r.Intn(4)).RegisterService(d, &svcObj{d.ServiceName})
 		}
 		rs.registerRefused(ch)
 		for k := 0; k < 20; k++ {
@@ -343,7 +357,7 @@ func checkC12(e *core.Env) {
 		if useMux {
 			reg := grpchan.HandlerMap{}
 			for _, d := range rs.descs {
-				reg.RegisterService(d, &svcObj{d.ServiceName})
+				decorated(reg, r.Intn(4)).RegisterService(d, &svcObj{d.ServiceName})
 			}
 			rs.registerRefused(reg)
 			mux := http.NewServeMux()
@@ -356,7 +370,7 @@ func checkC12(e *core.Env) {
 			s := httpgrpc.NewServer(httpgrpc.WithBasePath(base))
 			if pan := guard(func() {
 				for _, d := range rs.descs {
-					s.RegisterService(d, &svcObj{d.ServiceName})
+					decorated(s, r.Intn(4)).RegisterService(d, &svcObj{d.ServiceName})
 				}
 			}); pan != "" {
 				e.Violate("http-server/register-panic", fmt.Sprintf("RegisterService with base path %q panicked: %s", base, trunc(pan, 300)), base)
